@@ -1,3 +1,5 @@
 pub mod statics;
 pub mod multi;
 pub mod dynamic;
+pub mod satobj;
+pub mod exchange;
